@@ -712,8 +712,10 @@ S_ADDR = UDPv4Address("1.1.1.1", 1001)
 def _proto_addresses(n_remotes: int) -> list:
     """Per remote peer: home address, an address with another masked IP (another node id), the home IP with another
     port (same node id).  Fixed lists; the ids that result are whatever calc_node_id makes of them."""
-    homes = ["81.2.69.142", "145.94.0.7", "35.156.9.9"]
-    moved = ["44.33.22.11", "192.168.1.5", "100.64.1.1"]
+    homes = ["81.2.69.142", "145.94.0.7", "35.156.9.9", "12.7.200.1", "77.88.55.66", "203.0.113.9", "8.26.56.26",
+             "151.101.1.69", "64.233.160.1", "198.51.100.77"]
+    moved = ["44.33.22.11", "192.168.1.5", "100.64.1.1", "172.217.4.4", "23.45.67.89", "5.9.88.13", "91.198.174.192",
+             "185.60.216.35", "13.107.42.14", "31.13.71.36"]
     return [[UDPv4Address(homes[r], 7000 + r), UDPv4Address(moved[r], 4321 + r), UDPv4Address(homes[r], 7100 + r)]
             for r in range(n_remotes)]
 
@@ -889,6 +891,50 @@ def Peer_mid(public_key_bin: bytes) -> bytes:  # noqa: N802
     return _h.sha1(public_key_bin).digest()
 
 
+DRIFT_ADDRESSES = ["201.77.3.9", "9.9.9.9", "130.161.1.1", "66.249.66.1", "17.253.144.10", "208.67.222.222", "52.95.110.1",
+                   "94.140.14.14"]
+
+
+def drift_script(seed: int, which: int) -> tuple[list, int]:
+    """
+    Our own address changes while the table is populated (every introduction response rewrites my_peer.address, and
+    the DHT derives its own node id from the address): 8 peers are discovered at their home addresses, S moves to
+    DRIFT_ADDRESSES[which], the same peers are discovered at two further addresses each.  After every discovery the
+    table is a valid tree around ONE identifier - the one it was created with.
+    """
+    m = ProtoModel(8, "none", seed)
+    w = m.initial()
+    out: list = []
+    n = 0
+    try:
+        steps = [("disc", r, 0) for r in range(8)] + ["move"] + [("disc", r, a) for a in (1, 2) for r in range(8)]
+        done = []
+        for ev in steps:
+            if ev == "move":
+                new = UDPv4Address(DRIFT_ADDRESSES[which], 1001)
+                w.S.my_peer.address = new
+                w.S.my_estimated_wan = new
+                done.append(["move", DRIFT_ADDRESSES[which]])
+                continue
+            w.apply(ev)
+            n += 1
+            done.append(list(ev))
+            found = m.check(w, [], ev, None)
+            if found:
+                out = [(k, f"own address drift: after {done}: {what}") for k, what in found]
+                break
+        return out, n
+    finally:
+        w.close()
+
+
+def _drift_work(chunk: list) -> list:
+    return [(i, *drift_script(_DRIFT_SEED, i)) for i in chunk]
+
+
+_DRIFT_SEED = 0
+
+
 def proto_configs(ctx: core.Ctx) -> list:
     s = ctx.seed
     if ctx.thorough:
@@ -1024,6 +1070,18 @@ def run(ctx: core.Ctx) -> core.Report:
             report(v.key, v.what, {"kind": "proto", "world": model.params(), "history": v.replay["history"]})
         phase(f"proto{len(proto_runs)}")
 
+    # 5b: our own address (hence our own node id, as the overlay computes it) changes while the table is populated
+    global _DRIFT_SEED
+    _DRIFT_SEED = ctx.seed
+    drift_ops = 0
+    for i, found, n_ops in sorted(core.pmap(_drift_work, list(range(len(DRIFT_ADDRESSES))), ctx.jobs, chunk=1)):
+        drift_ops += n_ops
+        transitions += n_ops
+        for key, what in found:
+            report(key, what, {"kind": "drift", "seed": ctx.seed, "which": i})
+    proto_runs.append({"world": "own address drift", "addresses": len(DRIFT_ADDRESSES), "discoveries": drift_ops})
+    phase("drift")
+
     # 2 + 3: deterministic scripts, oracle after every operation
     scripts = family_scripts(ctx) + real_scripts(ctx) + long_scripts(ctx)
     fam_stats = {"scripts": len(scripts), "ops": 0, "closest_queries": 0, "max_depth": 0, "max_nodes": 0,
@@ -1080,6 +1138,8 @@ def replay(ctx: core.Ctx, data: dict) -> list:
     if data.get("kind") == "generate_id":
         _GEN_CACHE.clear()
         return [core.Violation(k, w) for k, w in generate_id_violations(data["prefix"])]
+    if data.get("kind") == "drift":
+        return [core.Violation(k, what) for k, what in drift_script(data["seed"], data["which"])[0]]
     if data.get("kind") == "proto":
         return [core.Violation(k, w) for k, w in dict(proto_replay(data)).items()]
     res = run_script(data)
